@@ -40,6 +40,7 @@ func init() {
 
 func runC05(c *eng.Ctx) {
 	p := c.P
+	replicaLogTestAndAppendAtomic(c)
 
 	// ---- 1. ATOMIC: one critical section for the whole append -------------------------------
 	c.Rule("ATOMIC", qPut+"{cursor,data,index,meta,publish}", func() {
@@ -117,44 +118,7 @@ func runC05(c *eng.Ctx) {
 	})
 
 	// ---- 2. ORDER: data -> index entry -> meta page -> publish -> signal ---------------------
-	c.Rule("ORDER", qPut+"{data<index<meta<publish<signal}", func() {
-		put := c.Fn(qPut)
-		data := func(p *eng.Prog, in ssa.Instruction) bool {
-			cl, ok := in.(*ssa.Call)
-			return ok && cl.Common().IsInvoke() && cl.Common().Method.Name() == "WriteBytes"
-		}
-		index := invokeOn(".indexPage", "PutUint64", "PutUint32")
-		meta := invokeOn(".metaPage", "PutUint64")
-		publish := eng.StoreField(qT + ".appendedSeq")
-		signal := invokeOn(".notEmpty", "Broadcast", "Signal")
-		steps := []struct {
-			name string
-			m    eng.Matcher
-			min  int
-		}{{"data", data, 1}, {"index-entry", index, 3}, {"meta-page", meta, 1}, {"publish-seq", publish, 1}, {"signal", signal, 1}}
-		for i := 1; i < len(steps); i++ {
-			ds := p.DeepSites(put, steps[i].m, 3, false)
-			if len(ds) < steps[i].min {
-				c.Undecided("expected >= %d %s sites under Put, found %d", steps[i].min, steps[i].name, len(ds))
-			}
-			// each site of step i must be preceded by ALL sites of step i-1: we require dominance by the
-			// set of step i-1 sites, and additionally that no step i-1 site can execute after it.
-			for k, d := range ds {
-				ok := p.DomDeep(put, d, steps[i-1].m, 3)
-				c.Check(ok, fmt.Sprintf("%s<%s[%d]", steps[i-1].name, steps[i].name, k), d.Leaf(), d.Leaf().Parent(),
-					fmt.Sprintf("on every path of an append %s happens before %s", steps[i-1].name, steps[i].name),
-					fmt.Sprintf("%s can be reached without %s having happened", steps[i].name, steps[i-1].name))
-				// no earlier-step site after this one (same function only)
-				fn := d.Leaf().Parent()
-				prev := p.Sites(fn, steps[i-1].m)
-				if w, found := eng.Reaches(fn, d.Leaf(), prev, nil); found {
-					c.Check(false, fmt.Sprintf("%s-not-after-%s[%d]", steps[i-1].name, steps[i].name, k), w, fn,
-						fmt.Sprintf("no %s after %s", steps[i-1].name, steps[i].name),
-						fmt.Sprintf("%s at %s executes after %s", steps[i-1].name, p.InstrPos(w), steps[i].name))
-				}
-			}
-		}
-	})
+	putPublicationOrder(c)
 
 	// ---- 3. PROV: dense sequence, one value for slot / meta / publication ---------------------
 	c.Rule("PROV", qPut+"{seq=appendedSeq+1}", func() {
@@ -946,4 +910,47 @@ func failedAcquireLeavesCursor(c *eng.Ctx) {
 			}
 		}
 	}
+}
+
+func putPublicationOrder(c *eng.Ctx) {
+	p := c.P
+	_ = p
+	c.Rule("ORDER", qPut+"{data<index<meta<publish<signal}", func() {
+		put := c.Fn(qPut)
+		data := func(p *eng.Prog, in ssa.Instruction) bool {
+			cl, ok := in.(*ssa.Call)
+			return ok && cl.Common().IsInvoke() && cl.Common().Method.Name() == "WriteBytes"
+		}
+		index := invokeOn(".indexPage", "PutUint64", "PutUint32")
+		meta := invokeOn(".metaPage", "PutUint64")
+		publish := eng.StoreField(qT + ".appendedSeq")
+		signal := invokeOn(".notEmpty", "Broadcast", "Signal")
+		steps := []struct {
+			name string
+			m    eng.Matcher
+			min  int
+		}{{"data", data, 1}, {"index-entry", index, 3}, {"meta-page", meta, 1}, {"publish-seq", publish, 1}, {"signal", signal, 1}}
+		for i := 1; i < len(steps); i++ {
+			ds := p.DeepSites(put, steps[i].m, 3, false)
+			if len(ds) < steps[i].min {
+				c.Undecided("expected >= %d %s sites under Put, found %d", steps[i].min, steps[i].name, len(ds))
+			}
+			// each site of step i must be preceded by ALL sites of step i-1: we require dominance by the
+			// set of step i-1 sites, and additionally that no step i-1 site can execute after it.
+			for k, d := range ds {
+				ok := p.DomDeep(put, d, steps[i-1].m, 3)
+				c.Check(ok, fmt.Sprintf("%s<%s[%d]", steps[i-1].name, steps[i].name, k), d.Leaf(), d.Leaf().Parent(),
+					fmt.Sprintf("on every path of an append %s happens before %s", steps[i-1].name, steps[i].name),
+					fmt.Sprintf("%s can be reached without %s having happened", steps[i].name, steps[i-1].name))
+				// no earlier-step site after this one (same function only)
+				fn := d.Leaf().Parent()
+				prev := p.Sites(fn, steps[i-1].m)
+				if w, found := eng.Reaches(fn, d.Leaf(), prev, nil); found {
+					c.Check(false, fmt.Sprintf("%s-not-after-%s[%d]", steps[i-1].name, steps[i].name, k), w, fn,
+						fmt.Sprintf("no %s after %s", steps[i-1].name, steps[i].name),
+						fmt.Sprintf("%s at %s executes after %s", steps[i-1].name, p.InstrPos(w), steps[i].name))
+				}
+			}
+		}
+	})
 }
